@@ -642,6 +642,9 @@ class Server(BaseComponent):
 
     @handler('write')
     def write(self, sock, data):
+        if sock not in self._clients:
+            # not (or no longer) connected: nothing could ever be written
+            return
         if not self._poller.isWriting(sock):
             self._poller.addWriter(self, sock)
         self._buffers[sock].append(data)
